@@ -1,4 +1,7 @@
 import Ptn.C04.OpRoot
+import Ptn.C04.GraphSS
+import Ptn.C04.GraphSO
+import Ptn.C04.GraphCC
 /-! Property theorems for C04 (leg-label calculus).  Only property theorems and non-vacuity examples.
 
 Quantification: every node (optional parent, any number of children in any order, `nbrs` without
@@ -16,8 +19,8 @@ theorem all_but_one_legs (three : Bool) (nd : Node) (next : Nat) (hnd : nd.nbrs.
       some ⟨[Leg.ketNb next, Leg.ketPhys] ++ (nd.nbrs.filter (· ≠ next)).flatMap (blockRest three),
             (nd.nbrs.filter (· ≠ next)).map (fun n => (Leg.ketNb n, Leg.blkKet n))⟩ := by
   have := allButOne_general 0 Leg.ketNb (block three) Leg.blkKet [Leg.ketPhys] (cacheBut three next) nd next
-    hnd hnext (fun n _ hne => ⟨by simp [cacheBut, hne], by simp [block, T.fresh], by simp [block, T.fresh]⟩)
-  simpa [contractAllButOneNeighbourBlockToKet, ketT, block, T.fresh] using this
+    hnd hnext (fun n _ hne => ⟨by simp [cacheBut, hne], by simp [block, T.fresh]⟩)
+  simpa [contractAllButOneNeighbourBlockToKet, ketT, block, T.fresh, flatMap_single] using this
 
 example : contractAllButOneNeighbourBlockToKet (ketT ⟨some 7, [1, 2, 3]⟩) ⟨some 7, [1, 2, 3]⟩ 2 (cacheBut false 2) =
     some ⟨[.ketNb 2, .ketPhys, .blkBra 7, .blkBra 1, .blkBra 3],
@@ -30,8 +33,8 @@ theorem all_but_one_legs_hamiltonian (nd : Node) (next : Nat) (hnd : nd.nbrs.Nod
               (nd.nbrs.filter (· ≠ next)).flatMap (fun n => [Leg.blkKet n, Leg.blkBra n]),
             (nd.nbrs.filter (· ≠ next)).map (fun n => (Leg.opNb n, Leg.blkOp n))⟩ := by
   have := allButOne_general 1 Leg.opNb (block true) Leg.blkOp [Leg.opOut, Leg.opIn] (cacheBut true next) nd next
-    hnd hnext (fun n _ hne => ⟨by simp [cacheBut, hne], by simp [block, blockRest, T.fresh], by simp [block, T.fresh]⟩)
-  simpa [contractAllButOneNeighbourBlockToHamiltonian, opT, block, blockRest, T.fresh] using this
+    hnd hnext (fun n _ hne => ⟨by simp [cacheBut, hne], by simp [block, blockRest, T.fresh]⟩)
+  simpa [contractAllButOneNeighbourBlockToHamiltonian, opT, block, blockRest, T.fresh, flatMap_single] using this
 
 /-- `contract_all_neighbour_blocks_to_ket`: always axis 0 -/
 theorem all_blocks_legs (three : Bool) (nd : Node) :
@@ -39,8 +42,8 @@ theorem all_blocks_legs (three : Bool) (nd : Node) :
       some ⟨[Leg.ketPhys] ++ nd.nbrs.flatMap (blockRest three),
             nd.nbrs.map (fun n => (Leg.ketNb n, Leg.blkKet n))⟩ := by
   have := allLoop_general 0 Leg.ketNb (block three) Leg.blkKet (cacheAll three) nd nd.nbrs [Leg.ketPhys] []
-    (fun n _ => ⟨rfl, by simp [block, T.fresh], by simp [block, T.fresh]⟩)
-  simpa [contractAllNeighbourBlocksToKet, ketT, block, T.fresh] using this
+    (fun n _ => ⟨rfl, by simp [block, T.fresh]⟩)
+  simpa [contractAllNeighbourBlocksToKet, ketT, block, T.fresh, flatMap_single] using this
 
 /-- `contract_bra_to_ket_and_blocks_ignore_one_leg`: the final tensordot binds exactly
 `(blkBra n, braNb (f n))` for every `n ≠ next` and `(ketPhys, braPhys)`, and leaves
@@ -54,7 +57,7 @@ theorem bra_ignore_one_binds (ketNode braNode : Node) (next : Nat) (f : Trafo) (
       some ⟨[Leg.ketNb next, Leg.braNb (f next)],
             bs ++ ((ketNode.nbrs.filter (· ≠ next)).map (fun n => (Leg.blkBra n, Leg.braNb (f n)))
                     ++ [(Leg.ketPhys, Leg.braPhys)])⟩ :=
-  braIgnore_general ketNode braNode next f bs hK hB hnext hperm
+  braIgnore_general _ _ _ _ _ ketNode braNode next f bs hK hB hnext hperm
 
 example : ([3, 7, 1, 2] : List Nat).Perm ([7, 1, 2, 3].map id) := by decide
 
@@ -92,7 +95,7 @@ theorem contract_any_nodes_spec (n1 n2 : Node) (next : Nat) (f : Trafo)
   · rw [if_neg hleaf]
     simp only [contractSubtreesUsingDictionary, all_but_one_legs false n1 next hK hnext]
     rw [flatMap_blockRest_false]
-    exact braIgnore_general n1 n2 next f _ hK hB hnext hperm
+    exact braIgnore_general _ _ _ _ _ n1 n2 next f _ hK hB hnext hperm
 
 example : contractAnyNodes 2 ⟨some 7, [1, 2, 3]⟩ ⟨some 7, [3, 1, 2]⟩ (ketT ⟨some 7, [1, 2, 3]⟩)
     (braT ⟨some 7, [3, 1, 2]⟩) (cacheBut false 2) id =
@@ -109,7 +112,7 @@ theorem root_contraction_closed (ketNode braNode : Node) (hK : ketNode.nbrs.Nodu
                 (braNode.nbrs.map (fun n => (Leg.blkBra n, Leg.braNb n)) ++ [(Leg.ketPhys, Leg.braPhys)])⟩ := by
   simp only [contractNodeWithEnvironmentNodes, all_blocks_legs false ketNode]
   rw [flatMap_blockRest_false]
-  exact braAll_general ketNode braNode _ hK hB hperm
+  exact braAll_general _ _ _ _ ketNode braNode _ hK hB hperm
 
 example : contractNodeWithEnvironmentNodes ⟨none, [1, 2, 3]⟩ (ketT ⟨none, [1, 2, 3]⟩) ⟨none, [3, 1, 2]⟩
     (braT ⟨none, [3, 1, 2]⟩) (cacheAll false) =
@@ -161,8 +164,11 @@ theorem expectation_binds (ketNode opNode braNode : Node) (next : Nat) (g f : Tr
             ((ketNode.nbrs.filter (· ≠ next)).map (fun n => (Leg.blkBra n, Leg.braNb (f n))) ++
               [(Leg.opOut, Leg.braPhys)])⟩ := by
   simp only [opContractSubtreesUsingDictionary, all_but_one_legs true ketNode next hK hnext,
-    flatMap_blockRest_true, opTensor_general ketNode opNode next g _ hK hO hnext hpermO]
-  exact braTensor_general ketNode braNode next f _ _ hK hB hnext hpermB
+    flatMap_blockRest_true, opT,
+    opTensor_general (Leg.ketNb next) Leg.ketPhys Leg.opOut Leg.opIn Leg.blkOp Leg.blkBra Leg.opNb
+      ketNode opNode next g _ hK hO hnext hpermO]
+  exact braTensor_general (Leg.ketNb next) Leg.opOut Leg.braPhys Leg.blkBra Leg.braNb ketNode braNode next f _ _
+    hK hB hnext hpermB
 
 example : opContractSubtreesUsingDictionary 7 ⟨some 7, [1, 2]⟩ (ketT ⟨some 7, [1, 2]⟩) ⟨some 7, [2, 1]⟩
     (opT ⟨some 7, [2, 1]⟩) (cacheBut true 7) ⟨some 7, [1, 2]⟩ (braT ⟨some 7, [1, 2]⟩) id id =
@@ -191,5 +197,81 @@ example : opContractNodeWithEnvironment ⟨none, [1, 2]⟩ (ketT ⟨none, [1, 2]
     (braT ⟨none, [1, 2]⟩) (cacheAll true) =
     some ⟨[], [(.ketNb 1, .blkKet 1), (.ketNb 2, .blkKet 2), (.blkOp 1, .opNb 1), (.blkOp 2, .opNb 2),
                (.ketPhys, .opIn), (.braNb 1, .blkBra 1), (.braNb 2, .blkBra 2), (.braPhys, .opOut)]⟩ := by decide
+
+/-! ## Tree level: the per-node steps composed along `linearise()` with the block dictionary -/
+
+/-- **`contract_two_ttns` computes the closed graph `Σ ket·bra`.**  For every tree with distinct
+identifiers and for arbitrary, independent child orders of the bra network at every node
+(`braKids i` any permutation of the ket's children of `i`), the loop over `linearise()` with the block
+dictionary (`add_entry` / `delete_entry`, never a `KeyError`) followed by the root step returns a tensor
+with NO free leg whose bound pairs are, up to order, exactly the specification graph: for every node
+`(ketPhys n, braPhys n)`, for every edge `p — c` the two ket legs `(ket p→c, ket c→p)` and the two bra
+legs `(bra c→p, bra p→c)` (`mem_ssSpec` below spells the list out).  The cached blocks are eliminated:
+their legs are the legs of the subtree's own tensors (`ssLoop_subtree`: every block denotes its
+subtree's sub-graph with free legs `[ket c→p, bra c→p]`). -/
+theorem contract_two_ttns_graph (t : Tree) (hnd : t.ids.Nodup) (braKids : Nat → List Nat)
+    (hperm : ∀ e ∈ Tree.info none t, (braKids e.1).Perm e.2.2) :
+    ∃ binds, contractTwoTtns (netOf t (fun _ ks => ks) gKetT) (netOf t (fun i _ => braKids i) gBraT)
+        = some ⟨[], binds⟩ ∧ binds.Perm (ssSpec t) := by
+  refine ⟨_, contractTwoTtns_eq t hnd braKids hperm, ssRootBinds_perm t _ ?_⟩
+  have := hperm (t.id, none, t.kids.map Tree.id) (by cases t; simp [Tree.info, Tree.id, Tree.kids])
+  simpa using this
+
+/-- the specification graph, spelled out: physical pairs of all nodes, ket and bra pairs of all edges -/
+theorem ss_spec_graph (t : Tree) (x : Leg × Leg) :
+    x ∈ ssSpec t ↔ (∃ n ∈ t.ids, x = physPair n) ∨
+      (∃ e ∈ t.edges, x = ketEdge e.1 e.2 ∨ x = braEdge e.1 e.2) :=
+  mem_ssSpec x t
+
+example : contractTwoTtns
+    (netOf (.node 0 [.node 1 [.node 3 []], .node 2 []]) (fun _ ks => ks) gKetT)
+    (netOf (.node 0 [.node 1 [.node 3 []], .node 2 []]) (fun i _ => if i = 0 then [2, 1] else if i = 1 then [3] else [])
+      gBraT) =
+    some ⟨[], [physPair 3, ketEdge 1 3, braEdge 1 3, physPair 1, ketEdge 0 1, physPair 2, ketEdge 0 2,
+               braEdge 0 2, braEdge 0 1, physPair 0]⟩ := by decide
+
+/-- **`expectation_value` computes the closed graph `<psi|O|psi>`.**  For every tree and arbitrary,
+independent child orders of the operator network at every node, the loop over `linearise()` with the
+block dictionary followed by the root step leaves NO free leg, and the bound pairs are — as unordered
+pairs, up to order — exactly the specification graph: for every node the operator's INPUT leg with the
+ket's physical leg and its OUTPUT leg with the bra's, for every edge the two ket legs, the two operator
+legs and the two bra legs (`so_spec_graph`).  The bra is the conjugated ket tensor on the ket's own node,
+as in the code. -/
+theorem expectation_value_graph (t : Tree) (hnd : t.ids.Nodup) (opKids : Nat → List Nat)
+    (hperm : ∀ e ∈ Tree.info none t, (opKids e.1).Perm e.2.2) :
+    ∃ binds, expectationValue (netOf t (fun _ ks => ks) gKetT) (netOf t (fun i _ => opKids i) gOpT) gBraT
+        = some ⟨[], binds⟩ ∧ (unord binds).Perm (unord (soSpec t)) :=
+  ⟨_, expectationValue_eq t hnd opKids hperm, soRootBinds_perm t⟩
+
+theorem so_spec_graph (t : Tree) (x : Leg × Leg) :
+    x ∈ soSpec t ↔ (∃ n ∈ t.ids, x = physIn n ∨ x = physOut n) ∨
+      (∃ e ∈ t.edges, x = ketEdge e.1 e.2 ∨ x = opEdge e.1 e.2 ∨ x = braEdge e.1 e.2) :=
+  mem_soSpec x t
+
+example : expectationValue
+    (netOf (.node 0 [.node 1 [], .node 2 []]) (fun _ ks => ks) gKetT)
+    (netOf (.node 0 [.node 1 [], .node 2 []]) (fun i _ => if i = 0 then [2, 1] else []) gOpT) gBraT =
+    some ⟨[], [physOut 1, physIn 1, ketEdge 0 1, physOut 2, physIn 2, ketEdge 0 2, opEdge 0 1, opEdge 0 2, physIn 0,
+               (braEdge 0 1).swap, (braEdge 0 2).swap, (physOut 0).swap]⟩ := by decide
+
+example : (Tree.node 0 [.node 1 [.node 3 []], .node 2 []]).ids.Nodup ∧
+    ∀ e ∈ Tree.info none (Tree.node 0 [.node 1 [.node 3 []], .node 2 []]),
+      ((fun i => if i = 0 then [2, 1] else if i = 1 then [3] else []) e.1).Perm e.2.2 := by decide
+
+/-- **`TTNO.as_matrix`** on top of `completely_contract_tree`: the contraction order returned is the
+preorder of the tree; the rows of the matrix are ALL OUTPUT legs and the columns ALL INPUT legs, both in
+the returned node order; every tree edge is bound (operator leg parent→child with child→parent) and nothing
+else.  PARTIAL: `contract_nodes` is modelled by `_data_contraction` (`tensordot(parent, child,
+(neighbour_index(child), 0))`), whose leg order coincides with the documented leg order of `contract_nodes`
+because a child that is contracted into its parent has no children left; the lazily stored leg permutation
+of the implementation (property C02) is not modelled. -/
+theorem as_matrix_graph_partial (t : Tree) (hnd : t.ids.Nodup) :
+    ∃ binds, asMatrix t = some (t.ids, t.ids.map Leg.gOpOut, t.ids.map Leg.gOpIn, binds) ∧
+      binds.Perm (t.edges.map fun e => (Leg.gOp e.1 e.2, Leg.gOp e.2 e.1)) :=
+  ⟨_, asMatrix_eq t hnd, List.perm_iff_count.2 (fun x => count_ccBinds x t)⟩
+
+example : asMatrix (.node 0 [.node 1 [.node 3 []], .node 2 []]) =
+    some ([0, 1, 3, 2], [.gOpOut 0, .gOpOut 1, .gOpOut 3, .gOpOut 2], [.gOpIn 0, .gOpIn 1, .gOpIn 3, .gOpIn 2],
+          [(.gOp 1 3, .gOp 3 1), (.gOp 0 1, .gOp 1 0), (.gOp 0 2, .gOp 2 0)]) := by decide
 
 end Ptn.C04
